@@ -520,6 +520,9 @@ def lim2(run, only_files=None, rule="LIM2"):
         run._taint = T
     spec = run.table("arith")
     audited = {e["key"]: e["reason"] for e in spec["discharged"]}
+    # an audited reason that rests on a test (`guarded by size > 0`) names it: the site has to lie behind an edge of a branch on
+    # a comparison whose text matches, otherwise the listed exception no longer applies
+    behind = {e["key"]: e["behind"] for e in spec["discharged"] if e.get("behind")}
     out = []
     n = 0
     for f in prog.real_fns():
@@ -572,12 +575,32 @@ def lim2(run, only_files=None, rule="LIM2"):
             if why is None:
                 continue
             n += 1
-            out.append((key, f, st["span"], "%s %s" % (root, why), audited.get(key)))
+            dis = audited.get(key)
+            if dis is not None and key in behind and not _behind_test(f, bi, behind[key]):
+                dis = None
+                why += "; the listed reason for accepting it (`%s`) rests on a test that no longer dominates this site" % audited[key][:80]
+            out.append((key, f, st["span"], "%s %s" % (root, why), dis))
     run.count("lim2_sites_flagged", n)
     return out
 
 
 KEYMAP = {}
+
+
+def _behind_test(f, block, pattern):
+    """is `block` dominated by an edge of a branch on a comparison whose text `<left> <Op> <right>` matches the pattern?"""
+    from rules_sym import deep
+    for b in f.dominators().get(block, ()):
+        t = f.blocks[b]["term"]
+        if t["k"] != "switch" or op_local(t["discr"]) is None:
+            continue
+        o = f.origin_local(op_local(t["discr"]))
+        if not (o and o[0] == "binop"):
+            continue
+        txt = "%s %s %s" % (deep(f, o[1]["l"], 6), o[1]["op"], deep(f, o[1]["r"], 6))
+        if re.search(pattern, txt) and any(f.edge_dominates(b, e, block) for e in f.succs(b)):
+            return True
+    return False
 
 
 def _stable(d):
